@@ -8,11 +8,39 @@
   log, which build files were rewritten (sentinel mtimes), and the canonical dump of the build directory.
 * edit generators.
 """
-import os, re, json, shutil, hashlib, subprocess, copy
+import os, re, json, shutil, hashlib, subprocess, copy, time
 import vlib
 
 SENTINEL = 1000000000          # mtime given to every build file before a deployment; rewritten <=> differs
-T0 = 1500000000                # first source mtime of a history
+T0 = 1500000000                # first source mtime of a history (2017)
+# The property quantifies over all (distinct) modification times.  librime stores a time as `(int)time_t` and compares
+# through the same cast, so the interesting places are 2^31 (2038-01-19: stored negative from there on) and 2^32
+# (2106-02-07: stored as a small number again).  Epochs a whole history can live in (its virtual clock starts there):
+EPOCHS = {"2017": T0,
+          "2038": 2**31 - 60,      # the history crosses 2^31 while the base workspace is written
+          "2040": 2208988800,      # 2040-01-01T00:00:00Z
+          "2106": 2**32 - 63}      # crosses 2^32 (the 9th tick is 2^32 itself): `(int)` wraps to small numbers
+# ... and what a single file can be dated with while the rest of the workspace stays where it is ("skew": a file copied
+# from a machine with a wrong clock, an unpacked archive).
+SKEW_2040 = 2208988800 - T0
+SKEW_2106 = 2**32 + 1000 - T0
+SKEW_2P32 = 2**32                # the same file 2^32 s later: recorded alike under the `(int)` cast
+FAR_SKEWS = [SKEW_2040, SKEW_2106]
+# How the tree under test records source timestamps (gen/deploy_facts.py `timestampBits`, set by the check; 32 is the
+# conservative default: histories valid for the 32-bit variant are valid for the 64-bit one).  With the `(int)` cast two
+# mtimes a multiple of 2^32 s apart are recorded alike and a multiple of 2^32 s is recorded as 0 = "absent" (the defect
+# kept in corpus/C12/int_cast_*.json; Props/C12.lean old_int_cast_counterexample): generated histories stay inside the
+# hypothesis then.  With 64-bit timestamps the hypothesis is gone and the generator ranges over those too.
+TIMESTAMP_BITS = 32
+
+
+def set_timestamp_bits(bits):
+    global TIMESTAMP_BITS
+    TIMESTAMP_BITS = 64 if bits == 64 else 32
+    if TIMESTAMP_BITS == 64 and FAR_SKEWS and SKEW_2P32 not in FAR_SKEWS:
+        FAR_SKEWS.append(SKEW_2P32)
+    if TIMESTAMP_BITS != 64 and SKEW_2P32 in FAR_SKEWS:
+        FAR_SKEWS.remove(SKEW_2P32)
 HOOK_RE = re.compile(r"RIME_VERIF_DECISION\(")
 
 
@@ -39,8 +67,8 @@ class Workspace:
     """Abstract workspace.  Everything the renderer and the abstraction need is in plain dicts so that a
     history can be deep-copied, serialised into a replay file and shrunk."""
 
-    def __init__(self):
-        self.clock = T0
+    def __init__(self, t0=T0):
+        self.clock = t0
         self.files = {}      # relpath ("shared/x.yaml" | "user/x.yaml") -> {"kind":…, …spec…, "mtime": t}
         self.gone = set()
 
@@ -57,15 +85,26 @@ class Workspace:
 
     def tick(self):
         self.clock += 7
+        if self.clock % 2**32 == 0 and (TIMESTAMP_BITS != 64 or self.clock == 0):
+            self.clock += 7              # recorded as 0 = "absent" (hypothesis PosTimes)
         return self.clock
 
     def put(self, rel, spec):
+        """(re)write a file now.  A file carrying a "skew" (see `redate`) keeps it: its mtimes stay in its own era."""
         spec = dict(spec)
-        spec["mtime"] = self.tick()
+        spec["mtime"] = self.tick() + spec.get("skew", 0)
         self.files[rel] = spec
 
     def touch(self, rel):
-        self.files[rel]["mtime"] = self.tick()
+        self.files[rel]["mtime"] = self.tick() + self.files[rel].get("skew", 0)
+
+    def redate(self, rel, skew):
+        """same content, mtime moved into another era (skew 0: back to the workspace clock)"""
+        if skew:
+            self.files[rel]["skew"] = skew
+        else:
+            self.files[rel].pop("skew", None)
+        self.touch(rel)
 
     def remove(self, rel):
         self.files.pop(rel, None)
@@ -324,15 +363,20 @@ class Workspace:
         ts = []
         for d in ("user", "shared"):
             p = os.path.join(root, d)
-            ts.append(int(os.stat(p).st_mtime))
+            ts.append(os.stat(p).st_mtime_ns // 10**9)      # exact (a float loses the half second past 2^32 s)
             for n in os.listdir(p):
                 fp = os.path.join(p, n)
                 if os.path.isfile(fp) and n.endswith(".yaml") and n != "user.yaml":
-                    ts.append(int(os.stat(fp).st_mtime))
+                    ts.append(os.stat(fp).st_mtime_ns // 10**9)
         return ts
 
 
-REAL_TIME_FLOOR = 1700000000     # anything later than this was stamped by the real clock, not by the check
+REAL_CLOCK_WINDOW = 30 * 86400   # an mtime this close to the real clock was stamped by it, not by the check; every
+                                 # virtual time the check uses (EPOCHS, skews) is years away from the real clock
+
+
+def stamped_by_real_clock(path):
+    return abs(os.stat(path).st_mtime - time.time()) < REAL_CLOCK_WINDOW
 
 
 def fix_virtual_mtimes(root, vt):
@@ -345,15 +389,38 @@ def fix_virtual_mtimes(root, vt):
             continue
         for n in os.listdir(p):
             fp = os.path.join(p, n)
-            if os.path.isfile(fp) and os.stat(fp).st_mtime > REAL_TIME_FLOOR:
+            if os.path.isfile(fp) and stamped_by_real_clock(fp):
                 os.utime(fp, ns=(ns, ns))
-        if os.stat(p).st_mtime > REAL_TIME_FLOOR:
+        if stamped_by_real_clock(p):
             os.utime(p, ns=(ns, ns))
 
 
+def far_mtimes_supported(scratch_dir):
+    """can the file system under the scratch directory hold the far-future mtimes exactly (ext4 with 256-byte inodes,
+    tmpfs, xfs bigtime: yes; ext3 / old xfs: no)?  If not the far epochs and skews are left out (and the evidence says so)."""
+    os.makedirs(scratch_dir, exist_ok=True)
+    p = os.path.join(scratch_dir, ".mtime_probe")
+    try:
+        with open(p, "w") as fh:
+            fh.write("x")
+        for t in (2**31 + 5, EPOCHS["2040"] + 10**4, T0 + SKEW_2106 + 10**4, EPOCHS["2106"] + SKEW_2P32 + 10**4):
+            ns = t * 10**9 + 5 * 10**8
+            os.utime(p, ns=(ns, ns))
+            if os.stat(p).st_mtime_ns != ns:
+                return False
+        return True
+    except OSError:
+        return False
+    finally:
+        try:
+            os.unlink(p)
+        except OSError:
+            pass
+
+
 # ---------------------------------------------------------------------------------- a starting workspace
-def base_workspace(rng, big=False):
-    w = Workspace()
+def base_workspace(rng, big=False, t0=T0):
+    w = Workspace(t0)
     nrows = 40 if big else 8
 
     def rows(n, sylls, maxlen=1):
@@ -365,13 +432,18 @@ def base_workspace(rng, big=False):
             out.append([text, code, rng.randint(1, 99)])
         return out
     sy_a = SYLL[:10]
-    w.put("shared/essay.txt", {"kind": "essay", "rows": [["".join(rng.choice(HAN) for _ in range(2)), rng.randint(1, 500)] for _ in range(12)]})
-    w.put("shared/dx.dict.yaml", {"kind": "dict", "name": "dx", "rows": rows(4, sy_a)})
+    # the last two phrases are made of characters `da` defines (its single-character rows below), so the preset
+    # vocabulary really contributes entries to the table of `da`
+    w.put("shared/essay.txt", {"kind": "essay", "rows": [["".join(rng.choice(HAN) for _ in range(2)), rng.randint(1, 500)] for _ in range(12)]
+                               + [[HAN[0] + HAN[1], 300], [HAN[2] + HAN[4] + HAN[3], 200]]})
+    # a row whose text is two Latin words: the tab and a space can trade places (see ws_tab)
+    w.put("shared/dx.dict.yaml", {"kind": "dict", "name": "dx", "rows": rows(4, sy_a) + [["ok a", "ba", 5]]})
     w.put("shared/da.dict.yaml", {"kind": "dict", "name": "da", "vocab": True, "imports": ["dx"], "rows": rows(nrows, sy_a, 2) + [[HAN[i], s, 50 + i] for i, s in enumerate(sy_a)]})
     w.put("shared/pk1.dict.yaml", {"kind": "dict", "name": "pk1", "rows": rows(3, sy_a, 2)})
     w.put("shared/pk2.dict.yaml", {"kind": "dict", "name": "pk2", "rows": rows(3, sy_a, 3)})
     w.put("shared/db.dict.yaml", {"kind": "dict", "name": "db", "sort": "original", "columns": ["text", "code"],
-                                  "rows": [[HAN[20 + i], "".join(rng.choice("abcd") for _ in range(rng.randint(1, 3)))] for i in range(nrows)]})
+                                  "rows": [[HAN[20 + i], "".join(rng.choice("abcd") for _ in range(rng.randint(1, 3)))] for i in range(nrows)]
+                                  + [["go to", "ab"]]})
     w.put("shared/common.yaml", {"kind": "config", "rules": ["derive/^zh/z/", "derive/^ch/c/"]})
     w.put("shared/sa.schema.yaml", {"kind": "schema", "sid": "sa", "dict": "da", "packs": ["pk1"], "deps": ["sc"],
                                     "algebra": ["abbrev/^([a-z]).+$/$1/"], "include": "common", "pad": 600 if big else 0})
@@ -382,6 +454,88 @@ def base_workspace(rng, big=False):
 
 
 # ---------------------------------------------------------------------------------- edits
+# Edits whose byte difference is white space only but whose meaning differs.  The dictionary checksum is a CRC of the
+# file bytes; an implementation that normalises or skips white space would not see them, and table / prism / reverse db
+# would stay stale.  The model gives the two contents different ids (ids are interned from the rendered bytes).
+def resegmentations(code):
+    """every other way of cutting the same letters that is one step away: a boundary moved by one letter, two adjacent
+    syllables joined, a syllable split.  `ab c` -> `a bc`, `abc`, `a b c`"""
+    parts = code.split(" ")
+    letters = "".join(parts)
+    cuts, pos = [], 0
+    for x in parts[:-1]:
+        pos += len(x)
+        cuts.append(pos)
+    out = []
+    for c in cuts:
+        for x in (c - 1, c + 1):
+            if 0 < x < len(letters) and x not in cuts:
+                out.append(("move", sorted(set(cuts) - {c} | {x})))
+        out.append(("join", sorted(set(cuts) - {c})))
+    for x in range(1, len(letters)):
+        if x not in cuts:
+            out.append(("split", sorted(set(cuts) | {x})))
+    res = []
+    for how, cs in out:
+        segs, prev = [], 0
+        for c in cs + [len(letters)]:
+            segs.append(letters[prev:c])
+            prev = c
+        res.append((how, " ".join(segs)))
+    return res
+
+
+def ws_resegment(rng, f, prefer=("move", "move", "join", "split")):
+    """re-cut the code of one row of a dict spec in place; returns a label or None"""
+    idx = [i for i, r in enumerate(f["rows"]) if len(str(r[1]).replace(" ", "")) >= 2]
+    rng.shuffle(idx)
+    how = rng.choice(prefer)
+    for i in idx:
+        c = [x for x in resegmentations(str(f["rows"][i][1])) if x[0] == how] or resegmentations(str(f["rows"][i][1]))
+        if c:
+            h, code = rng.choice(c)
+            f["rows"][i] = list(f["rows"][i])
+            f["rows"][i][1] = code
+            return h
+    return None
+
+
+def ws_tab_swap(rng, f):
+    """the tab between text and code trades places with a neighbouring space: `ok a<TAB>ba` <-> `ok<TAB>a ba`"""
+    idx = [i for i, r in enumerate(f["rows"]) if str(r[0]).isascii() and (" " in str(r[0]) or " " in str(r[1]))]
+    if not idx:
+        return None
+    i = rng.choice(idx)
+    r = list(f["rows"][i])
+    text, code = str(r[0]), str(r[1])
+    if " " in text and (" " not in code or rng.random() < 0.5):
+        head, last = text.rsplit(" ", 1)
+        r[0], r[1] = head, last + " " + code
+    else:
+        first, rest = code.split(" ", 1)
+        r[0], r[1] = text + " " + first, rest
+    f["rows"][i] = r
+    return "tab"
+
+
+def ws_essay(rng, f, known=""):
+    """a space typed into (or removed from) a phrase of the preset vocabulary: the phrase stops (starts) being made of
+    characters the dictionary knows.  Phrases made of `known` characters first (the edit is then visible in the table)."""
+    idx = [i for i, r in enumerate(f["rows"]) if len(r[0].replace(" ", "")) >= 2]
+    if not idx:
+        return None
+    vis = [i for i in idx if all(ch in known for ch in f["rows"][i][0].replace(" ", ""))]
+    i = rng.choice(vis or idx)
+    t = f["rows"][i][0]
+    if " " in t:
+        t = t.replace(" ", "")
+    else:
+        k = rng.randint(1, len(t) - 1)
+        t = t[:k] + " " + t[k:]
+    f["rows"][i] = [t, f["rows"][i][1]]
+    return "essay"
+
+
 def gen_edit(rng, w):
     """apply one random edit that keeps the sources deployable; returns a description (for the evidence)"""
     def dict_rel(name):
@@ -395,7 +549,7 @@ def gen_edit(rng, w):
         return sorted(s) or ["a"]
     kinds = ["row_add", "row_del", "row_mod", "algebra_add", "algebra_del", "custom_on", "custom_off", "custom_mod",
              "import_add", "import_del", "pack_add", "pack_del", "list", "essay", "touch", "shadow", "unshadow",
-             "deps", "common", "defcustom_on", "defcustom_off", "pad"]
+             "deps", "common", "defcustom_on", "defcustom_off", "pad", "ws_syl", "ws_syl", "ws_tab", "ws_essay", "redate"]
     for _ in range(50):
         k = rng.choice(kinds)
         if k in ("row_add", "row_del", "row_mod"):
@@ -421,6 +575,33 @@ def gen_edit(rng, w):
                 f["rows"][i][0] = rng.choice(HAN) + f["rows"][i][0][1:]
             w.put(rel, f)
             return "%s %s" % (k, name)
+        if k in ("ws_syl", "ws_tab"):
+            name = rng.choice(["da", "dx", "db", "pk1", "pk2"])
+            rel = dict_rel(name)
+            if not rel:
+                continue
+            f = copy.deepcopy(w.files[rel])
+            how = ws_resegment(rng, f) if k == "ws_syl" else ws_tab_swap(rng, f)
+            if not how:
+                continue
+            w.put(rel, f)
+            return "%s %s %s" % (k, name, how)
+        if k == "ws_essay":
+            rel = w.resolve("essay.txt")
+            f = copy.deepcopy(w.files[rel])
+            known = "".join(str(r[0]) for n in ("da", "dx") if dict_rel(n) for r in w.files[dict_rel(n)]["rows"])
+            if not ws_essay(rng, f, known):
+                continue
+            w.put(rel, f)
+            return "ws_essay"
+        if k == "redate":
+            if not FAR_SKEWS:
+                continue
+            rel = rng.choice(sorted(w.files))
+            cur = w.files[rel].get("skew", 0)
+            skew = rng.choice([x for x in [0] + FAR_SKEWS if x != cur])
+            w.redate(rel, skew)
+            return "redate %s %s" % (rel, {0: "clock", SKEW_2040: "2040", SKEW_2106: "2106", SKEW_2P32: "+2^32"}.get(skew, skew))
         if k in ("algebra_add", "algebra_del"):
             sid = rng.choice(["sa", "sc", "sb"])
             rel = w.resolve(sid + ".schema.yaml")
